@@ -143,7 +143,7 @@ C20Roles ==
 \* and so are "carol " (trailing blank) and "carol".
 C20Users ==
     [u \in {"alice", "bob", "carol", "dave", "Alice", "erin",
-            "~fi~ona", "fiona", "~G~reg", "carol "} |->
+            "~fi~ona", "fiona", "~G~reg", "carol ", "lock1", "lock2"} |->
         CASE u = "alice"   -> [pw |-> "pw-alice", role |-> "reader"]
           [] u = "bob"     -> [pw |-> "pw-bob",   role |-> "writer"]
           [] u = "carol"   -> [pw |-> "pw-carol", role |-> "pubber"]
@@ -153,7 +153,11 @@ C20Users ==
           [] u = "~fi~ona" -> [pw |-> "pw-ligature", role |-> "reader"]
           [] u = "fiona"   -> [pw |-> "pw-fiona", role |-> "pubber"]
           [] u = "~G~reg"  -> [pw |-> "pw-greg",  role |-> "reader"]
-          [] u = "carol "  -> [pw |-> "pw-carolsp", role |-> "reader"]]
+          [] u = "carol "  -> [pw |-> "pw-carolsp", role |-> "reader"]
+          \* accounts whose configured password hash no password matches
+          \* (empty / not hexadecimal): the harness types "pw-locked"
+          [] u = "lock1"   -> [pw |-> "#locked-empty", role |-> "reader"]
+          [] u = "lock2"   -> [pw |-> "#locked-nonhex", role |-> "writer"]]
 
 PeerRoles == {"", "reader", "nologin"}   \* "" = peer not mapped
 
